@@ -1,3 +1,4 @@
+import os
 import pathlib
 import re
 import shutil
@@ -8,10 +9,10 @@ from conductor.utils.user_code import cli_command
 from conductor.task_identifier import TaskIdentifier
 
 _EXPERIMENT_TASK_REGEX = re.compile(
-    r"^(?P<name>[a-zA-Z0-9_-]+)\.task\.(?P<timestamp>[1-9][0-9]*)$"
+    r"^(?P<name>[a-zA-Z0-9_-]+)\.task\.(?P<timestamp>[1-9][0-9]*)\Z"
 )
 
-_REGULAR_TASK_REGEX = re.compile(r"^(?P<name>[a-zA-Z0-9_-]+)\.task$")
+_REGULAR_TASK_REGEX = re.compile(r"^(?P<name>[a-zA-Z0-9_-]+)\.task\Z")
 
 
 def register_command(subparsers):
@@ -75,9 +76,9 @@ def main(args):
 
         if args.dry_run:
             for exp_path in to_delete:
-                print("Would delete", str(exp_path.relative_to(cwd)))
+                print("Would delete", os.path.relpath(exp_path, cwd))
         else:
             for exp_path in to_delete:
                 if args.verbose:
-                    print("Deleting", str(exp_path.relative_to(cwd)))
+                    print("Deleting", os.path.relpath(exp_path, cwd))
                 shutil.rmtree(exp_path, ignore_errors=True)
